@@ -256,6 +256,9 @@ def opInverse (e : Entry) : RM Res := do
       let coupled6 := hasPara k
       if !coupled6 then
         preds := preds ++ [("C06.j6", sols.all (fun s => s.j6.toBits == j6.toBits || (s.j6.isNaN && j6.isNaN)), "J6 differs from the argument")]
+    -- a robot declared 5-DOF: plain `inverse` is `inverse_5dof(pose, 0.0)` -- joint 6 of every answer is 0
+    if e == .inv && k.core.p.dof == 5 && !hasPara k then
+      preds := preds ++ [("C06.j6", sols.all (fun s => s.j6 == 0.0), s!"5-DOF robot: plain inverse returned J6 {sols.map (·.j6)}, not 0")]
     let cont5 := e == .invc5 || (e == .invc && k.core.p.dof == 5)
     if cont5 && !hasPara k && !prev.j1.isNaN && prev.j6.isFinite then
       preds := preds ++ [("C06.j6", sols.all (fun s => s.j6.toBits == prev.j6.toBits), s!"J6 differs from previous J6: {sols.map (·.j6)}")]
